@@ -1367,6 +1367,32 @@ pub fn is_type_parameter_used_in_type(
             is_type_parameter_used_in_type(type_parameters, &ty.elem)
         }
 
+        // A type parameter may hide inside any compound type, as well as behind the invisible
+        // group a `macro_rules!` `$t:ty` fragment arrives in.
+        syn::Type::Array(syn::TypeArray { elem, .. })
+        | syn::Type::Slice(syn::TypeSlice { elem, .. })
+        | syn::Type::Ptr(syn::TypePtr { elem, .. })
+        | syn::Type::Paren(syn::TypeParen { elem, .. })
+        | syn::Type::Group(syn::TypeGroup { elem, .. }) => {
+            is_type_parameter_used_in_type(type_parameters, elem)
+        }
+
+        syn::Type::Tuple(ty) => ty
+            .elems
+            .iter()
+            .any(|ty| is_type_parameter_used_in_type(type_parameters, ty)),
+
+        syn::Type::BareFn(ty) => {
+            ty.inputs
+                .iter()
+                .any(|arg| is_type_parameter_used_in_type(type_parameters, &arg.ty))
+                || matches!(
+                    &ty.output,
+                    syn::ReturnType::Type(_, ty)
+                        if is_type_parameter_used_in_type(type_parameters, ty),
+                )
+        }
+
         _ => false,
     }
 }
